@@ -886,6 +886,16 @@ func run(c *fw.Ctx) {
 	}
 }
 
+// progress appends a line to progress.log in the worker's scratch directory (developer aid).
+func progress(format string, args ...interface{}) {
+	f, err := os.OpenFile("progress.log", os.O_CREATE|os.O_APPEND|os.O_WRONLY, 0o644)
+	if err != nil {
+		return
+	}
+	fmt.Fprintf(f, "%s "+format+"\n", append([]interface{}{time.Now().Format("15:04:05")}, args...)...)
+	f.Close()
+}
+
 var (
 	samplesMu  sync.Mutex
 	allSamples []interface{}
@@ -1013,6 +1023,7 @@ func bfs(c *fw.Ctx, ph phase, rc *refCache, vr *violRec, ngo int) int {
 		c.Eval(nTrans)
 		c.NontrivialN(nNontriv)
 		c.Count("violating_histories", nViolCases)
+		progress("%s depth %d/%d: frontier %d, transitions %d, expired=%v", ph.name, d, depth, len(frontier), nTrans, expired != 0)
 
 		if expired != 0 {
 			c.Cap(fmt.Sprintf("time cap in phase %s during depth %d of %d (depth %d complete)", ph.name, d, depth, completed))
